@@ -31,6 +31,11 @@ func clauseProps(fc *FuncContract, c *Clause) []string {
 
 // VerifyFunc generates all obligations for the function with the given contract.
 func VerifyFunc(P *Program, DB *ContractDB, fc *FuncContract, safety bool) *FnResult {
+	return VerifyFuncX(P, DB, fc, safety, nil)
+}
+
+// VerifyFuncX additionally takes the excusing conditions of known findings (obligation base name -> expression).
+func VerifyFuncX(P *Program, DB *ContractDB, fc *FuncContract, safety bool, excuses map[string]string) *FnResult {
 	res := &FnResult{Key: fc.Key}
 	fn := P.Funcs[fc.Key]
 	if fn == nil {
@@ -149,6 +154,21 @@ func VerifyFunc(P *Program, DB *ContractDB, fc *FuncContract, safety bool) *FnRe
 			if err != nil {
 				res.Err = fmt.Errorf("%s: ensures %s: %v", e.Where, e.Name, err)
 				return res
+			}
+			if ex, ok := excuses[fmt.Sprintf("%s#ensures:%s", fc.Key, e.Name)]; ok {
+				rx, err := rewriteExpr(ex)
+				if err != nil {
+					res.Err = fmt.Errorf("known finding excuse for %s: %v", e.Name, err)
+					return res
+				}
+				c, err := env.compileBool(rx)
+				if err != nil {
+					res.Err = fmt.Errorf("known finding excuse for %s: %v", e.Name, err)
+					return res
+				}
+				co := f.addObl("canary", e.Name, and(r.cond, c), g, e, r.ret.Pos(), clauseProps(fc, e))
+				co.Expect = "sat"
+				g = or(c, g)
 			}
 			f.addObl("ensures", e.Name, r.cond, g, e, r.ret.Pos(), clauseProps(fc, e))
 		}
